@@ -54,7 +54,7 @@ CHECKS = {
     "C17": (
         "fault_enumeration",
         "offline prefix checker over recorded writes with fault injection in separate processes: every stage boundary x {raise, die-after, die-before}, every stage method raising at entry, audit-hooked write_stages=False runs",
-        "For each configuration (2 quick / 7 thorough, several file names incl. extension-less) one reference run snapshots the file at every boundary; then one process per (boundary, kind) is run and the file left on disk is compared, file against file, with the reference snapshot; compute() must raise for injected failures. Every boundary of each configuration is enumerated.",
+        "For each configuration (2 quick / 7 thorough, several file names incl. extension-less) one reference run snapshots the file at every boundary; then one process per (boundary, kind) is run and the file left on disk is compared, file against file, with the reference snapshot; compute() must raise for injected failures. Every boundary of each configuration is enumerated. Reference-only runs add low-angle geometry, empty runs, every diagnostic plot, exactly one surviving trajectory and a non-finite configuration value (KNOWN-FINDING staged:non-finite-header-skipped: accepted only when every keyword the file lacks is non-finite in the table).",
         "Trusted: astropy FITS I/O, os._exit for process death, sys.addaudithook. Death during a write is outside the property and is not injected.",
         "5 (C17)",
     ),
@@ -88,7 +88,7 @@ CHECKS = {
     ),
     "C06": (
         "exploration",
-        "reference-model monitor (scalar double-precision model, math module only) against the production float32 kernel and the same kernel in double via the guarded hook; stepping probe with invariants; clang ASan+UBSan on the working tree's zsteps.cpp (pre-flight and on every tuple the workload passed)",
+        "reference-model monitor (scalar double-precision model, math module only) against the production float32 kernel and the same kernel in double via the guarded hook; stepping probe with invariants; clang ASan+UBSan on the working tree's zsteps.cpp (pre-flight and on every tuple the workload passed); the batch path against run() event by event; input-dtype monitor on the batch path (float16 / float32 / int64 energies and altitudes)",
         "Observed executions on a stratified grid incl. all faces of [0,42 deg]x[0,20 km]x[1e-5,1e4] plus hostile extras and random points (1.1e3 quick / 1.3e4 thorough events, three detector altitudes): float32 within the property's band, median deviation, double-precision agreement at 1e-9 (separates logic from rounding), sub-degree clamp bit-identity, stepping invariants, sanitizer clean with identical output hash.",
         "Trusted: the reference transcription of the model (DESIGN Appendix A), libm, clang sanitizers. The prebuilt extension cannot be rebuilt (no pybind11): every kernel run uses the function compiled from the current zsteps.cpp through a shim. A clean sanitizer run is not memory safety.",
         "5 (C06)",
@@ -123,23 +123,23 @@ CHECKS = {
     ),
     "C07": (
         "exploration",
-        "icontract post-conditions on the real Taus.__call__ and EAS.altDec recomputing every output with independent constants and explicit-vector geometry; RNG spy (internal draws) and hostile RNG stub; monotonicity ladders",
+        "icontract post-conditions on the real Taus.__call__ and EAS.altDec recomputing every output with independent constants and explicit-vector geometry; RNG spy (internal draws) and hostile RNG stub; monotonicity ladders; input-dtype monitor (half / single precision kinematics against the same numbers as doubles)",
         "Observed executions over 3 table versions x 3 etau_frac x hostile/real generators (1e5..2e6 events): every event's Lorentz factor, speed, shower energy, decay length and decay altitude recomputed independently (1e-12; altitude 1e-9), including exactly 42 deg, logE exactly 6, u = 0 (infinite decay length), 5e-324, 1-2^-53 and 1; the real call order on the same arrays with pristine copies for the oracle; and the smallest energies the tables can produce.",
         "Trusted: numpy; constants m_tau=1.77686 GeV, c=299792.458 km/s, tau0=2.903e-13 s; Earth radius astropy R_earth. Speed exactly 1.0 accepted only where 1/gamma^2 < 2^-53.",
         "5 (C07)",
     ),
     "C12": (
         "exploration",
-        "icontract post-conditions on the real Spectra.__call__ (bounds, normalisation product) plus an exact inverse-CDF oracle in 50-digit decimal; history monitor on edited / copied spectrum objects; uniform numbers supplied by a hostile RNG stub or observed by an RNG spy",
+        "icontract post-conditions on the real Spectra.__call__ (bounds, normalisation product) plus an exact inverse-CDF oracle in 50-digit decimal, both ways: F(E) against u and the returned log-energy against the exact image of u itself (60 digits; next to u = 1 a steep spectrum maps one ulp of u onto a tenth of a decade); history monitor on edited / copied spectrum objects; uniform numbers supplied by a hostile RNG stub or observed by an RNG spy",
         "Observed executions over a boundary catalogue of (index, bounds) incl. index exactly 1 and within 1e-12..1e-1 of 1, narrow and full bounds, plus 300..3000 random configurations, each with hostile u (0, denormals, 1-2^-53, 1), grids and real draws; every value is judged against the exact CDF.",
-        "Trusted: python decimal. Tolerance: |F-u| <= 1e-9, or log-energy within 1e-12 + 1e-14/|1-index| of the exact image (representability / conditioning of the closed form).",
+        "Trusted: python decimal. Tolerance: |F-u| <= 1e-9 (or log-energy within 1e-12 + 1e-14/|1-index| of an exact image: representability for narrow bounds) and, always, log-energy within 1e-9 + 1e-14/|1-index| decades of the exact image of u.",
         "5 (C12)",
     ),
     "C18": (
         "exploration",
         "round-trip monitors on the real NssGrid reader/writers (HDF5, FITS) judged by a harness-side comparison, reference blend for slicing, plateau-aware bracket oracle for row interpolation over the closed row range with node steps of every scale (1e-17..1), overwrite / multi-path sequences on one file, exhaustive scan of every shipped table against raw h5py content",
-        "300..4000 random grids (1-4 dims, 9 dtypes, hostile axis names incl. case-only differences) through both formats; every node and two interior coordinates of every axis sliced by index and by name; 2e4..6e5 monotone rows with plateaus, narrow brackets, bracket mid-points, exact-node and first/last-node queries; every node of all shipped tables checked against the samplers' preconditions.",
-        "Trusted: h5py, astropy.io.fits. Axis names are restricted to what both formats can carry (no '/', no leading/trailing blanks, ASCII). Slicing along a length-1 axis is not exercised.",
+        "300..4000 random grids (1-4 dims, 9 data dtypes, float and integer axes, hostile axis names incl. case-only differences) through both formats; every node and two interior coordinates of every axis sliced by index and by name; 2e4..6e5 monotone rows with plateaus, narrow brackets, bracket mid-points, exact-node and first/last-node queries; every node of all shipped tables checked against the samplers' preconditions.",
+        "Trusted: h5py, astropy.io.fits. Axis names are restricted to what both formats can carry (no '/', no leading/trailing blanks, ASCII). Slicing along a length-1 axis is not exercised. Open findings, each with a fixed witness: an int8 axis in FITS (grid-fits:int8-axis), CDF rows of the unused version-0 table that start above 0 (shipped:nuleptonsim-cdf-first-value).",
         "5 (C18)",
     ),
     "C19": (
